@@ -58,6 +58,7 @@ type failIn struct {
 	Input
 	ottoEvents []string
 	upTo       int // index of the first disagreeing event
+	variant    int // erratum variant the disagreement was computed under
 }
 
 // ------------------------------------------------------------ driving otto
@@ -146,13 +147,23 @@ func (h *host) install(vm *otto.Otto) {
 	})
 }
 
+var preludeScript *otto.Script
+
 // runOtto executes the script of an input on a fresh runtime.
 func runOtto(in *Input, sortLen int) (events []string, out ox.Outcome, src string) {
 	vm := otto.New()
 	h := &host{base: map[string]map[string]bool{}}
 	h.install(vm)
+	if preludeScript == nil {
+		var err error
+		if preludeScript, err = vm.Compile("prelude.js", prelude); err != nil {
+			panic("c08 prelude: " + err.Error())
+		}
+	}
+	if po := ox.Run(vm, preludeScript); po.Err != nil || po.Panic != nil {
+		return nil, po, "prelude"
+	}
 	var b strings.Builder
-	b.WriteString(prelude)
 	b.WriteString(setupJS(in))
 	proto := usesProto(in)
 	for _, op := range in.Ops {
@@ -234,6 +245,19 @@ func checkOne(c *run.Ctx, in Input) {
 		c.Note("skip:" + status)
 		return
 	}
+	// A case is also infeasible when a recorded deviation of the implementation
+	// (or the other reading of an ES5.1 erratum) makes it exceed the budget:
+	// e.g. splice() deleting 2^32-1 elements, map allocating 2^32-1 slots.
+	touched := m.r.Touched
+	if md, st := runModel(&in, 0, allDevs()); st == "" {
+		touched |= md.r.Touched // e.g. splice reached only because this=undefined did not throw
+	}
+	for _, v := range append([]int{0}, variantSets(touched)...) {
+		if _, st := runModel(&in, v, allDevs()|infeasibleDevs); st != "" {
+			c.Feature("skipped:" + strings.SplitN(st, ":", 2)[0] + "-under-known-deviation")
+			return
+		}
+	}
 	c.Announce(in)
 	got, out, _ := runOtto(&in, m.sortLen)
 	if out.Panic != nil {
@@ -251,23 +275,51 @@ func checkOne(c *run.Ctx, in Input) {
 	}
 	ok := true
 	d := firstDiff(want[:cmpTo], clipTo(got, cmpTo, m.sortAt >= 0))
-	if d >= 0 && m.r.Touched != 0 {
-		// a point where ES5.1 is known to be erroneous / divergent was reached:
-		// accept the other reading(s) as well
-		for _, v := range variantSets(m.r.Touched) {
+	if d >= 0 && touched != 0 {
+		// A point where ES5.1 is known to be erroneous / divergent was reached:
+		// accept the other reading(s) as well. If no reading agrees completely,
+		// report against the reading under which the recorded deviations explain
+		// most (ties: the reading that itself agrees longest).
+		inf := 1 << 30
+		score := func(mv *mrun) (int, int) {
+			ct := len(mv.events)
+			if mv.sortAt >= 0 {
+				ct = mv.sortAt
+			}
+			ds := firstDiff(mv.events[:ct], clipTo(got, ct, mv.sortAt >= 0))
+			if ds < 0 {
+				return inf, inf
+			}
+			dd := ds
+			if md, st := runModel(&in, mv.r.Variant, allDevs()); st == "" {
+				cd := len(md.events)
+				if md.sortAt >= 0 {
+					cd = md.sortAt
+				}
+				if dd = firstDiff(md.events[:cd], clipTo(got, cd, md.sortAt >= 0)); dd < 0 {
+					dd = inf
+				}
+			}
+			return dd, ds
+		}
+		bd, bs := score(m)
+		for _, v := range variantSets(touched) {
 			m2, st2 := runModel(&in, v, 0)
 			if st2 != "" {
 				continue
 			}
-			ct := len(m2.events)
-			if m2.sortAt >= 0 {
-				ct = m2.sortAt
+			if dd, ds := score(m2); dd > bd || (dd == bd && ds > bs) {
+				m, bd, bs = m2, dd, ds
 			}
-			if firstDiff(m2.events[:ct], clipTo(got, ct, m2.sortAt >= 0)) < 0 {
-				m, want, cmpTo, d = m2, m2.events, ct, -1
-				c.Feature(fmt.Sprintf("variant-accepted:%d", v))
-				break
-			}
+		}
+		want = m.events
+		cmpTo = len(want)
+		if m.sortAt >= 0 {
+			cmpTo = m.sortAt
+		}
+		d = firstDiff(want[:cmpTo], clipTo(got, cmpTo, m.sortAt >= 0))
+		if d < 0 && m.r.Variant != 0 {
+			c.Feature(fmt.Sprintf("variant-accepted:%d", m.r.Variant))
 		}
 	}
 	if d >= 0 {
@@ -286,7 +338,23 @@ func checkOne(c *run.Ctx, in Input) {
 		if d > 0 {
 			detail += " | previous event: " + at(got, d-1)
 		}
-		c.Fail("mismatch", siteOf(&in, opIdx), &failIn{Input: in, ottoEvents: got, upTo: d}, at(want, d), at(got, d), detail)
+		c.Fail("mismatch", siteOf(&in, opIdx), &failIn{Input: in, ottoEvents: got, upTo: d, variant: m.r.Variant}, at(want, d), at(got, d), detail)
+		// Do not let a known deviation hide a later, different disagreement: with
+		// every recorded deviation switched on, the model must explain the rest.
+		if md, st := runModel(&in, m.r.Variant, allDevs()); st == "" {
+			ct := len(md.events)
+			if md.sortAt >= 0 {
+				ct = md.sortAt
+			}
+			if d2 := firstDiff(md.events[:ct], clipTo(got, ct, md.sortAt >= 0)); d2 > d {
+				op2 := -1
+				if d2 < len(md.evOp) {
+					op2 = md.evOp[d2]
+				}
+				c.Fail("mismatch", siteOf(&in, op2), &failIn{Input: in, ottoEvents: got, upTo: d2, variant: m.r.Variant}, at(md.events, d2), at(got, d2),
+					fmt.Sprintf("second disagreement at event %d (op %d), not explained by the recorded deviations that explain event %d", d2, op2, d))
+			}
+		}
 	}
 	if ok && m.sortAt >= 0 {
 		ok = checkSort(c, &in, m, got)
@@ -371,7 +439,7 @@ func checkSort(c *run.Ctx, in *Input, m *mrun, got []string) bool {
 		switch {
 		case strings.HasPrefix(l, "cmp:"):
 			cmpCalls++
-			if m.sortOK || (m.sortCB != nil && m.sortCB.Ret == "incons") {
+			if m.sortOK || m.sortOnlyIncons {
 				parts := strings.Split(strings.TrimPrefix(l, "cmp:"), ",")
 				if len(parts) != 3 || !defined[parts[0]] || !defined[parts[1]] || parts[2] != "G" {
 					return fail("comparefn called with (x, y) two defined elements and this=undefined (15.4.4.11 SortCompare 13.b)", l, "")
@@ -389,7 +457,7 @@ func checkSort(c *run.Ctx, in *Input, m *mrun, got []string) bool {
 		}
 		return true
 	}
-	if !m.sortOK && !(m.sortCB != nil && m.sortCB.Ret == "incons") {
+	if !m.sortOK && !m.sortOnlyIncons {
 		c.Feature("sort:implementation-defined:" + m.sortWhy)
 		return true
 	}
